@@ -411,7 +411,17 @@ def _eval_new_ctx(
         if ProcessingStage.PATH_COMMIT in stages:
             _logger.debug(f"Starting stage {ProcessingStage.PATH_COMMIT}")
             t = _time()
-            _store().sync_paths(store_paths)
+            # A keep that has not been reached (it sits in a branch that was not taken, in a loop that
+            # did not run) has produced nothing: its path is left as it is, instead of being pointed to
+            # a blob that does not exist.
+            produced_paths = OrderedDict(
+                [(p, key) for (p, key) in store_paths.items() if _store().has_blob(key)]
+            )
+            if len(produced_paths) < len(store_paths):
+                _logger.debug(
+                    f"Paths without a result: {[p for p in store_paths if p not in produced_paths]}"
+                )
+            _store().sync_paths(produced_paths)
             _add_delta(t, ProcessingStage.PATH_COMMIT)
             _logger.debug(f"Stage {ProcessingStage.PATH_COMMIT} done")
         else:
